@@ -454,6 +454,9 @@ fn main() {
         let t = std::fs::read_to_string(&path).unwrap_or_else(|e| fail(&format!("SPEC-ERROR prelude {}: {}", path, e)));
         o.push_str(&format!("// ======== prelude/{}.vx ========\n{}\n", p, t));
     }
+    // R-MACRO-EXPAND: one helper run for all @derive directives
+    let groups: Vec<(String, Vec<String>)> = unit.items.iter().filter_map(|it| if let SItem::Derive(d) = it { Some((d.file.clone(), d.names.clone())) } else { None }).collect();
+    let derived = if groups.is_empty() { Ok(vec![]) } else { derive::run_helper(&ctx.repo, &groups) };
     for item in &unit.items {
         match item {
             SItem::Raw(t) => { o.push_str(t); o.push('\n'); }
@@ -471,9 +474,9 @@ fn main() {
             SItem::Derive(d) => {
                 // R-MACRO-EXPAND
                 if d.names.len() > 1 && (!d.extra.is_empty() || !d.f.at.is_empty()) { ctx.problems.push(format!("SPEC-ERROR @derive with several names takes no sub-directives ({})", d.names.join(" "))); }
-                match derive::run_helper(&ctx.repo, &d.file, &d.names) {
-                    Err(e) => ctx.problems.push(e),
-                    Ok(list) => for ex in list {
+                match &derived {
+                    Err(e) => { if !ctx.problems.contains(e) { ctx.problems.push(e.clone()); } }
+                    Ok(list) => for ex in list.iter().filter(|x| x.file == d.file && d.names.contains(&x.name)) {
                         // the type definition (attrs dropped, fields pub, R-TYPE)
                         let dummy = FnSpec::default();
                         let mut nt = Norm::new(&dummy, &unit, false, "");
